@@ -315,9 +315,11 @@ class C07(Plugin):
             raise Violation('cut_leaves_other_than_delete', f'cut={root.src[:400]!r} delete={fork.src[:400]!r}')
         # (4) unique-token conservation
         if run.cfg.get('unique') and isinstance(piece, fst.FST):
-            before = unique_tokens(ctx['src'])
-            rem = unique_tokens(root.src)
-            pc = unique_tokens(piece.src)
+            def _reind(toks):  # documented re-indentation of (multi-line) docstrings: whitespace after newlines is layout
+                return None if toks is None else [re.sub(r'\n[ \t]*', '\n', t) if '\n' in t and t[:1] in '\'"rRuUbBfF' else t for t in toks]
+            before = _reind(unique_tokens(ctx['src']))
+            rem = _reind(unique_tokens(root.src))
+            pc = _reind(unique_tokens(piece.src))
             if before is not None and rem is not None and pc is not None and len(set(before)) == len(before):
                 opts = O.dec_opts(op.get('opts'))
                 if sorted(rem + pc) != sorted(before):
